@@ -155,6 +155,8 @@ class Doc:
     """Assembles the text line by line and drives the model alongside."""
 
     INC = "# IA\n\nIPA\n\n## IB\n\nIPB\n"
+    # a nested render (directive body, div, nested include) BETWEEN the headings of the included file
+    INC2 = "# JA\n\n```{note}\nnested body\n```\n\n:::{tip}\n### JN\n:::\n\n## JB\n\nJPB\n\n```{include} inc.md\n```\n\n## JC\n"
 
     def __init__(self, scratch):
         self.lines = []
@@ -205,6 +207,20 @@ class Doc:
             self.rubrics.append((f"{kind}{i}", lvl))
             name = "topic" if kind == "T" else "sidebar"
             self.lines += ["```{%s} Title %d" % (name, i), "#" * lvl + f" {kind}{i}", "", "body text", "```", ""]
+        elif kind == "J":  # include (with heading offset) of a file whose headings are separated by nested renders
+            off = int(sym[1])
+            self.files["inc2.md"] = self.INC2
+            self.model.heading(1 + off, "JA", None)
+            self.rubrics.append(("JN", 3 + off))
+            self.model.heading(2 + off, "JB", None)
+            self.model.para("JPB")
+            # the nested include is rendered with ITS OWN offset (0): levels 1 and 2
+            self.model.heading(1, "IA", None)
+            self.model.para("IPA")
+            self.model.heading(2, "IB", None)
+            self.model.para("IPB")
+            self.model.heading(2 + off, "JC", None)
+            self.lines += ["````{include} inc2.md", f":heading-offset: {off}", "````", ""]
         elif kind == "I":  # include with heading offset
             off = int(sym[1])
             start = self.lineno()
@@ -223,6 +239,7 @@ class _Base(System):
         self.dir = ctx.scratch / "c05"
         self.dir.mkdir(exist_ok=True)
         (self.dir / "inc.md").write_text(Doc.INC)
+        (self.dir / "inc2.md").write_text(Doc.INC2)
 
     def execute(self, seq):
         d = Doc(self.dir)
@@ -261,7 +278,7 @@ class LevelSystem(_Base):
                    nontrivial=len(lv) >= 2, violations=viol[:3], canon=(tuple(sorted(r._level_to_section)), lv[-1] if lv else 0))
 
 
-MIXED = ["H1", "H2", "H3", "H4", "H6", "P", "Q1", "Q3", "L1", "L2", "N1", "N3", "M2", "T2", "S1", "I0", "I1", "I2"]
+MIXED = ["H1", "H2", "H3", "H4", "H6", "P", "Q1", "Q3", "L1", "L2", "N1", "N3", "M2", "T2", "S1", "I0", "I1", "I2", "J1", "J2"]
 
 
 class MixedSystem(_Base):
@@ -299,7 +316,7 @@ class MixedSystem(_Base):
             if [p for _, p in a] != [p for _, p in b]:
                 viol.append(violation("nested-affects-structure", {"clause": "nested-affects-structure"},
                                       f"section structure {a} differs from {b} obtained without the nested headings", text=d.text()))
-        nt = any(s[0] in "QLNMTSI" for s in seq) and any(s[0] == "H" for s in seq)
+        nt = any(s[0] in "QLNMTSIJ" for s in seq) and any(s[0] == "H" for s in seq)
         return Obs(digest=([(t, p) for t, p, _ in observe(doc)[2]], stream.count("[myst.header]"), d.rubrics),
                    nontrivial=nt, violations=viol[:3], canon=(tuple(sorted(r._level_to_section)), seq[-1] if seq else ""))
 
